@@ -6,6 +6,7 @@ package props
 
 func init() {
 	mutants["C01"] = []Mutant{
+		{Name: "int64-append-arr-skips-first", File: "proto/col_int64_gen.go", Old: "\t*c = append(*c, vs...)", New: "\t*c = append(*c, vs[1:]...)", Rule: "C01.clones", Construct: "col_int64_gen.go"},
 		{Name: "put256-limbs-swapped", File: "proto/int256.go", Old: "\tbinary.LittleEndian.PutUint64(b[128/8:192/8], v.High.Low)\n\tbinary.LittleEndian.PutUint64(b[64/8:128/8], v.Low.High)", New: "\tbinary.LittleEndian.PutUint64(b[128/8:192/8], v.Low.High)\n\tbinary.LittleEndian.PutUint64(b[64/8:128/8], v.High.Low)", Rule: "C01.endian", Construct: "proto.binPutUInt256"},
 		{Name: "named-decodestate-pointer-receiver", File: "proto/col_tuple.go", Old: "func (c ColNamed[T]) DecodeState(r *Reader) error {", New: "func (c *ColNamed[T]) DecodeState(r *Reader) error {", Rule: "C01.stateset", Construct: "ColNamed"},
 		{Name: "nullable-row-polarity", File: "proto/col_nullable.go", Old: "Set:   c.Nulls.Row(i) == boolFalse,", New: "Set:   c.Nulls.Row(i) == boolTrue,", Rule: "C01.nullflag", Construct: "ColNullable"},
@@ -125,6 +126,7 @@ func init() {
 		{Name: "flush-error-skips-reset", File: "proto/writer.go", Old: "\tn, err = w.vec.WriteTo(w.conn)\n\tw.reset()", New: "\tn, err = w.vec.WriteTo(w.conn)\n\tif err != nil {\n\t\treturn n, err\n\t}\n\tw.reset()", Rule: "C14.flush", Construct: "Flush"},
 	}
 	mutants["C15"] = []Mutant{
+		{Name: "uint32-safe-loop-drops-last", File: "proto/col_uint32_safe_gen.go", Old: "for i := 0; i <= len(data)-size; i += size {", New: "for i := 0; i < len(data)-size; i += size {", Rule: "C15.clones", Construct: "col_uint32_safe_gen.go"},
 		{Name: "date32-safe-uint16", File: "proto/col_date32_safe_gen.go", Old: "Date32(binary.LittleEndian.Uint32(data[i:i+size])),", New: "Date32(binary.LittleEndian.Uint16(data[i:i+size])),", Rule: "C15.endian", Construct: "ColDate32"},
 		{Name: "readraw-bypasses-selection", File: "proto/reader.go", Old: "\tif err := r.readFull(n); err != nil {\n\t\treturn nil, errors.Wrap(err, \"read full\")\n\t}\n", New: "\tr.b.Ensure(n)\n\tif _, err := io.ReadFull(r.raw, r.b.Buf); err != nil {\n\t\treturn nil, errors.Wrap(err, \"read full\")\n\t}\n", Rule: "C15.source", Construct: "ReadRaw"},
 		{Name: "safe-uint32-size", File: "proto/col_uint32_safe_gen.go", Old: "\tconst size = 32 / 8\n\tdata, err := r.ReadRaw(rows * size)", New: "\tconst size = 16 / 8\n\tdata, err := r.ReadRaw(rows * size)", Rule: "C15.width", Construct: "ColUInt32"},
